@@ -231,6 +231,19 @@ def storage_iface(ctx, rr):
     from .table_rules import tables
     rows = tables(ctx, fs, iters=1)
     bad = []
+    # expression form: `return length % block_size != 0` (or `> 0`, `bool(...)`)
+    rets_ = [x for x in P.own(fs, ast.Return) if x.value is not None]
+    if len(rets_) == 1 and not isinstance(rets_[0].value, ast.Constant):
+        from ..dataflow import rtext as _rt
+        t_ = _rt(P, fs, rets_[0].value)
+        good_ = t_.endswith('%self.block_size!=0') or t_.endswith('%self.block_size>0') or (t_.startswith('bool(') and t_.endswith('%self.block_size)')) \
+            or t_.endswith('%self.block_size>=1')
+        wrong_ = t_.endswith('%self.block_size==0') or t_.startswith('not') or '//' in t_
+        if not good_ and not wrong_:
+            raise AnalysisError('R-STORAGE-IFACE: verdict expression `%s` of check_for_corruption not recognised' % t_)
+        rows = []
+        if wrong_:
+            bad.append((None, 'returns `%s`, which is not "length %% block_size is non-zero"' % t_))
     for r in rows:
         ret = [e for e in r.events if e.kind == 'return']
         mod = [(k, v) for k, v in r.val.items() if 'Mod' in k or '%' in r.src.get(k, '')]
@@ -254,7 +267,7 @@ def storage_iface(ctx, rr):
     rr.ob(ctx.where(fs), 'check_for_corruption is true exactly when the file length is not a multiple of the block size (%d rows)' % len(rows), ok=not bad)
     for r, msg in bad:
         rr.fail(ctx.finding('R-STORAGE-IFACE', fs, fs.node, 'FileStorage.check_for_corruption: %s: a partially written block can be accepted on reopen' % msg,
-                            stmt='check_for_corruption table', detail={'row': r.show()[:300]}))
+                            stmt='check_for_corruption table', detail={'row': r.show()[:300] if r is not None else ''}))
     rr.info.update({'protocol_sites': n_proto, 'facade_sites': n_facade})
 
 
